@@ -82,6 +82,13 @@ CLAIMS = {
 NA = {
 }
 
+KNOWN = {
+    "C05": " Known findings reported by this check (exit 0, KNOWN-FINDING lines): F15, F18 (dial outcomes the manager concludes itself are not reported).",
+    "C11": " Known finding reported by this check: F12 (dead pending_open after an outbound open failure in Validating).",
+    "C13": " Known findings reported by this check: F15, F18 (via R05.9), F21 (open pending on a dying primary connection beside a secondary).",
+    "C16": " Known findings reported by this check: F15, F18 (via R05.9), F19 (quorum over the known peers only).",
+}
+
 
 def main():
     checks = []
@@ -102,7 +109,7 @@ def main():
                     "text": "static analysis, all CFG paths of the named bodies of /repo's current tree: " + text,
                     "design_ref": "DESIGN.md section " + ref,
                 },
-                "level_note": TRUST,
+                "level_note": TRUST + KNOWN.get(pid, ""),
                 "technique": "static analysis: " + tech,
             })
         else:
